@@ -51,6 +51,9 @@ type Exec struct {
 	initStates map[*ssa.Package]*State
 	recorders  []*recorder
 	skipHeader *ssa.BasicBlock
+	forkCount  map[string]int
+	joins      map[*ssa.Function]*joinInfo
+	noMerge    bool
 	wsCache    map[*ssa.Function]*WriteSet
 	iterPrefix map[string]*Term
 	arrayFam   map[string]int
@@ -199,10 +202,11 @@ type Frame struct {
 	contract *Contract
 	entry   *EntrySnapshot
 	loopEntry map[*ssa.BasicBlock]*State // state at loop entry (for `entry(x)` in invariants)
+	stops   []*ssa.BasicBlock           // join blocks at which execution is suspended for merging
 }
 
 func (fr *Frame) clone() *Frame {
-	n := &Frame{fn: fr.fn, env: make(map[ssa.Value]Val, len(fr.env)), prev: fr.prev, cut: map[*ssa.BasicBlock]bool{}, unroll: map[*ssa.BasicBlock]int{}, top: fr.top, contract: fr.contract, entry: fr.entry, loopEntry: map[*ssa.BasicBlock]*State{}}
+	n := &Frame{fn: fr.fn, env: make(map[ssa.Value]Val, len(fr.env)), prev: fr.prev, cut: map[*ssa.BasicBlock]bool{}, unroll: map[*ssa.BasicBlock]int{}, top: fr.top, contract: fr.contract, entry: fr.entry, loopEntry: map[*ssa.BasicBlock]*State{}, stops: append([]*ssa.BasicBlock(nil), fr.stops...)}
 	for k, v := range fr.env {
 		n.env[k] = v
 	}
@@ -222,6 +226,7 @@ type Result struct {
 	st  *State
 	ret Val
 	fr  *Frame
+	at  *ssa.BasicBlock // non-nil: the path was suspended on arrival at this join block (not a function return)
 }
 
 func (ex *Exec) warn(format string, a ...interface{}) {
@@ -827,6 +832,13 @@ func (ex *Exec) runFrom(fr *Frame, b *ssa.BasicBlock, idx int, st *State) []Resu
 			}
 			return nil
 		}
+		if idx == 0 && len(fr.stops) > 0 && ex.skipHeader != b {
+			for _, sb := range fr.stops {
+				if sb == b {
+					return []Result{{st: st, fr: fr, at: b}}
+				}
+			}
+		}
 		if idx == 0 && ex.skipHeader == b {
 			ex.skipHeader = nil
 		} else if idx == 0 {
@@ -851,12 +863,39 @@ func (ex *Exec) runFrom(fr *Frame, b *ssa.BasicBlock, idx int, st *State) []Resu
 				} else if c == False {
 					next = b.Succs[1]
 				} else {
+					j := ex.joinOf(fr.fn, b)
+					if ex.forkCount != nil {
+						if j == nil {
+							ex.forkCount["nojoin:"+ex.site]++
+						} else {
+							ex.forkCount[fmt.Sprintf("join:%s->b%d", ex.site, j.Index)]++
+						}
+					}
+					base := len(st.pc)
 					st2 := st.Clone()
 					fr2 := fr.clone()
 					st.Assume(c)
 					st2.Assume(Not(c))
 					ex.nstates++
+					if ex.forkCount != nil {
+						ex.forkCount[ex.site]++
+					}
 					if ex.nstates > ex.maxStates {
+						if ex.forkCount != nil {
+							type kv struct {
+								k string
+								v int
+							}
+							var l []kv
+							for k, v := range ex.forkCount {
+								l = append(l, kv{k, v})
+							}
+							sort.Slice(l, func(i, j int) bool { return l[i].v > l[j].v })
+							for i := 0; i < 12 && i < len(l); i++ {
+								fmt.Fprintf(os.Stderr, "forks %6d at %s\n", l[i].v, l[i].k)
+							}
+							ex.forkCount = map[string]int{}
+						}
 						var stk []string
 						for _, f := range ex.callStack {
 							stk = append(stk, f.Name())
@@ -864,14 +903,45 @@ func (ex *Exec) runFrom(fr *Frame, b *ssa.BasicBlock, idx int, st *State) []Resu
 						ex.unsupp("path explosion in %s (> %d states) at %v (spec=%d rec=%d)", ex.fnPrefix, ex.maxStates, stk, ex.specMode, len(ex.recorders))
 						return nil
 					}
-					var out []Result
+					if j != nil {
+						fr.stops = append(fr.stops, j)
+						fr2.stops = append(fr2.stops, j)
+					}
+					var rs []Result
 					if !st.dead {
 						fr.prev = b
-						out = append(out, ex.runFrom(fr, b.Succs[0], 0, st)...)
+						rs = append(rs, ex.runFrom(fr, b.Succs[0], 0, st)...)
 					}
 					if !st2.dead {
 						fr2.prev = b
-						out = append(out, ex.runFrom(fr2, b.Succs[1], 0, st2)...)
+						rs = append(rs, ex.runFrom(fr2, b.Succs[1], 0, st2)...)
+					}
+					if j == nil {
+						return rs
+					}
+					var out, arrivals []Result
+					for _, r := range rs {
+						if r.at == j {
+							r.fr.stops = r.fr.stops[:len(r.fr.stops)-1]
+							arrivals = append(arrivals, r)
+						} else {
+							if r.at != nil {
+								// suspended at an outer join: our own stop is no longer pending on that path
+								for k := len(r.fr.stops) - 1; k >= 0; k-- {
+									if r.fr.stops[k] == j {
+										r.fr.stops = append(r.fr.stops[:k:k], r.fr.stops[k+1:]...)
+										break
+									}
+								}
+							}
+							out = append(out, r)
+						}
+					}
+					if ex.forkCount != nil {
+						ex.forkCount[fmt.Sprintf("arrivals=%d:%s", len(arrivals), ex.site)]++
+					}
+					for _, m := range ex.mergeArrivals(base, j, arrivals) {
+						out = append(out, ex.runFrom(m.fr, j, m.idx, m.st)...)
 					}
 					return out
 				}
@@ -890,7 +960,7 @@ func (ex *Exec) runFrom(fr *Frame, b *ssa.BasicBlock, idx int, st *State) []Resu
 					}
 					ret = tv
 				}
-				return []Result{{st, ret, fr}}
+				return []Result{{st: st, ret: ret, fr: fr}}
 			case *ssa.Panic:
 				what := "explicit"
 				ex.oblige(st, "nopanic", ex.fnPrefix+"#nopanic:"+what, False, x.Pos())
@@ -2046,4 +2116,424 @@ func (ex *Exec) collectIterObjs(fr *Frame, st *State, v ssa.Value, out map[int]*
 			}
 		}
 	}
+}
+
+
+// ---------------------------------------------------------------- join points (state merging)
+
+type joinInfo struct {
+	ipdom map[*ssa.BasicBlock]*ssa.BasicBlock
+}
+
+// joinOf returns the immediate post-dominator of b (the block where the two arms of b's branch meet), or nil.
+func (ex *Exec) joinOf(fn *ssa.Function, b *ssa.BasicBlock) *ssa.BasicBlock {
+	if ex.noMerge {
+		return nil
+	}
+	ji, ok := ex.joins[fn]
+	if !ok {
+		ji = computeJoins(fn)
+		ex.joins[fn] = ji
+	}
+	j := ji.ipdom[b]
+	if j == nil {
+		return nil
+	}
+	// a loop header with phi nodes needs per-predecessor handling on arrival
+	if lp := ex.loops(fn).byHeader[j]; lp != nil {
+		if len(j.Instrs) > 0 {
+			if _, isPhi := j.Instrs[0].(*ssa.Phi); isPhi {
+				return nil
+			}
+		}
+	}
+	return j
+}
+
+func computeJoins(fn *ssa.Function) *joinInfo {
+	// join of a two-way branch at b: the block reachable from both arms (ignoring back edges and ignoring paths
+	// that leave through return/panic) that is dominated by b and dominates every other such block.
+	ji := &joinInfo{ipdom: map[*ssa.BasicBlock]*ssa.BasicBlock{}}
+	reach := func(start *ssa.BasicBlock) map[*ssa.BasicBlock]bool {
+		seen := map[*ssa.BasicBlock]bool{}
+		stack := []*ssa.BasicBlock{start}
+		for len(stack) > 0 {
+			n := stack[len(stack)-1]
+			stack = stack[:len(stack)-1]
+			if seen[n] {
+				continue
+			}
+			seen[n] = true
+			for _, sx := range n.Succs {
+				if sx.Dominates(n) {
+					continue // back edge
+				}
+				stack = append(stack, sx)
+			}
+		}
+		return seen
+	}
+	for _, b := range fn.Blocks {
+		if len(b.Succs) != 2 {
+			continue
+		}
+		if b.Succs[0].Dominates(b) || b.Succs[1].Dominates(b) {
+			continue // one arm is a back edge
+		}
+		r0, r1 := reach(b.Succs[0]), reach(b.Succs[1])
+		var cands []*ssa.BasicBlock
+		for x := range r0 {
+			if r1[x] && x != b && b.Dominates(x) {
+				cands = append(cands, x)
+			}
+		}
+		for _, x := range cands {
+			ok := true
+			for _, y := range cands {
+				if y != x && !x.Dominates(y) {
+					ok = false
+					break
+				}
+			}
+			if ok {
+				ji.ipdom[b] = x
+				break
+			}
+		}
+	}
+	return ji
+}
+
+type mergedArrival struct {
+	fr  *Frame
+	st  *State
+	idx int
+}
+
+// mergeArrivals joins the states that reached join block j from the two arms of a branch.
+// Leading phi nodes of j are evaluated per arrival first. States that cannot be merged continue separately.
+func (ex *Exec) mergeArrivals(base int, j *ssa.BasicBlock, arrivals []Result) []mergedArrival {
+	nphi := 0
+	for _, in := range j.Instrs {
+		if _, ok := in.(*ssa.Phi); ok {
+			nphi++
+		} else {
+			break
+		}
+	}
+	for _, r := range arrivals {
+		for k := 0; k < nphi; k++ {
+			ex.step(r.fr, j.Instrs[k], r.st)
+		}
+	}
+	separate := func() []mergedArrival {
+		var out []mergedArrival
+		for _, r := range arrivals {
+			out = append(out, mergedArrival{r.fr, r.st, nphi})
+		}
+		return out
+	}
+	if len(arrivals) <= 1 {
+		return separate()
+	}
+	conds := make([]*Term, len(arrivals))
+	for k, r := range arrivals {
+		if len(r.st.pc) < base {
+			return separate()
+		}
+		conds[k] = And(r.st.pc[base:]...)
+	}
+	first := arrivals[0]
+	m := &State{pc: append([]*Term(nil), first.st.pc[:base]...), heap: map[int]Val{}, worlds: map[int]*World{}, optObj: map[int]*Obj{}, depth: first.st.depth}
+	m.pc = append(m.pc, Or(conds...))
+	for _, r := range arrivals {
+		for _, d := range r.st.defs {
+			m.AssumeDef(d)
+		}
+		for k, v := range r.st.optObj {
+			m.optObj[k] = v
+		}
+	}
+	var mergeVals func(vals []Val, present []bool) (Val, bool)
+	mergeVals = func(vals []Val, present []bool) (Val, bool) {
+		var acc Val
+		accK := -1
+		set := false
+		for k := len(vals) - 1; k >= 0; k-- {
+			if !present[k] {
+				continue
+			}
+			v := vals[k]
+			if !set {
+				acc, set, accK = v, true, k
+				continue
+			}
+			if v == acc || structEqVal(v, acc) {
+				continue
+			}
+			t1, ok1 := v.(*Term)
+			t2, ok2 := acc.(*Term)
+			if ok1 && ok2 && t1.Sort == t2.Sort {
+				acc = Ite(conds[k], t1, t2)
+				continue
+			}
+			s1, ok1 := v.(*SliceV)
+			s2, ok2 := acc.(*SliceV)
+			if ok1 && ok2 && s1.Obj == s2.Obj {
+				acc = &SliceV{Obj: s1.Obj, Off: Ite(conds[k], s1.Off, s2.Off), Len: Ite(conds[k], s1.Len, s2.Len), Elem: s1.Elem, Nil: Ite(conds[k], s1.IsNil(), s2.IsNil())}
+				continue
+			}
+			if ok1 && ok2 && s1.Elem != nil && !isByteElem(s1.Elem) {
+				// different backing arrays: snapshot both and continue with a fresh object
+				st2 := arrivals[accK].st
+				if _, has := st2.heap[s2.Obj.id]; !has {
+					// acc was already re-wrapped into the merged heap
+					st2 = m
+				}
+				if _, has := st2.heap[s2.Obj.id]; !has {
+					return nil, false
+				}
+				sl := types.NewSlice(s1.Elem)
+				a1 := ex.asTerm(arrivals[k].st, s1, sl)
+				a2 := ex.asTerm(st2, s2, sl)
+				for _, d := range arrivals[k].st.defs {
+					m.AssumeDef(d)
+				}
+				if a1.Sort != a2.Sort {
+					return nil, false
+				}
+				t := Ite(conds[k], a1, a2)
+				o := m.NewObj("merged-slice", nil, SlArr(t))
+				acc = &SliceV{Obj: o, Off: IntLit(0), Len: SlLen(t), Elem: s1.Elem, Nil: SlIsNil(t)}
+				continue
+			}
+			c1, ok1 := v.(*CtxV)
+			c2, ok2 := acc.(*CtxV)
+			if ok1 && ok2 && c1.World == c2.World {
+				acc = &CtxV{World: c1.World, Time: Ite(conds[k], c1.Time, c2.Time), Height: Ite(conds[k], c1.Height, c2.Height), Chain: Ite(conds[k], c1.Chain, c2.Chain)}
+				continue
+			}
+			tu1, ok1 := v.(*TupleV)
+			tu2, ok2 := acc.(*TupleV)
+			if ok1 && ok2 && len(tu1.Elems) == len(tu2.Elems) {
+				nt := &TupleV{}
+				okAll := true
+				for i := range tu1.Elems {
+					a, b := tu1.Elems[i], tu2.Elems[i]
+					if a == b || structEqVal(a, b) {
+						nt.Elems = append(nt.Elems, a)
+						continue
+					}
+					x, okx := a.(*Term)
+					y, oky := b.(*Term)
+					if okx && oky && x.Sort == y.Sort {
+						nt.Elems = append(nt.Elems, Ite(conds[k], x, y))
+						continue
+					}
+					okAll = false
+				}
+				if okAll {
+					acc = nt
+					continue
+				}
+			}
+			if os.Getenv("ICSVC_DEBUG_MERGE") != "" {
+				fmt.Fprintf(os.Stderr, "unmergeable at %s b%d: %s vs %s\n", first.fr.fn.Name(), j.Index, describeVal(v), describeVal(acc))
+			}
+			return nil, false
+		}
+		return acc, true
+	}
+	// heap
+	ids := map[int]bool{}
+	for _, r := range arrivals {
+		for id := range r.st.heap {
+			ids[id] = true
+		}
+	}
+	for id := range ids {
+		vals := make([]Val, len(arrivals))
+		pres := make([]bool, len(arrivals))
+		for k, r := range arrivals {
+			vals[k], pres[k] = r.st.heap[id]
+		}
+		v, ok := mergeVals(vals, pres)
+		if !ok {
+			return separate()
+		}
+		m.heap[id] = v
+	}
+	// worlds
+	wids := map[int]bool{}
+	for _, r := range arrivals {
+		for id := range r.st.worlds {
+			wids[id] = true
+		}
+	}
+	for id := range wids {
+		var acc *World
+		for k := len(arrivals) - 1; k >= 0; k-- {
+			w := arrivals[k].st.worlds[id]
+			if w == nil {
+				continue
+			}
+			if acc == nil {
+				c := *w
+				acc = &c
+				continue
+			}
+			acc = &World{S: Ite(conds[k], w.S, acc.S), X: Ite(conds[k], w.X, acc.X), E: Ite(conds[k], w.E, acc.E)}
+		}
+		m.worlds[id] = acc
+	}
+	// environment: values defined before the branch or by the phis of j
+	fr := first.fr.clone()
+	keys := map[ssa.Value]bool{}
+	for _, r := range arrivals {
+		for v := range r.fr.env {
+			keys[v] = true
+		}
+	}
+	for v := range keys {
+		vals := make([]Val, len(arrivals))
+		pres := make([]bool, len(arrivals))
+		all := true
+		for k, r := range arrivals {
+			vals[k], pres[k] = r.fr.env[v]
+			if !pres[k] {
+				all = false
+			}
+		}
+		if !all {
+			delete(fr.env, v) // defined in one arm only: dead after the join (SSA dominance)
+			continue
+		}
+		mv, ok := mergeVals(vals, pres)
+		if !ok {
+			// a value defined inside the arms that is not used after the join does not matter; one defined before
+			// the branch is identical in all arrivals. Anything else makes the states unmergeable.
+			if in, isInstr := v.(ssa.Instruction); isInstr && in.Block() != nil && !in.Block().Dominates(j) {
+				delete(fr.env, v)
+				continue
+			}
+			return separate()
+		}
+		fr.env[v] = mv
+	}
+	// ghost call history: records become conditional
+	for k, r := range arrivals {
+		for name, recs := range r.st.calls {
+			for _, rec := range recs {
+				rc := rec
+				if rc.St == nil {
+					rc.St = r.st
+				}
+				// records made before the branch are shared: keep them once
+				shared := true
+				for _, o := range arrivals {
+					found := false
+					for _, orc := range o.st.calls[name] {
+						if len(orc.Args) == len(rec.Args) && sameVals(orc.Args, rec.Args) && orc.Ret == rec.Ret && orc.Cond == rec.Cond {
+							found = true
+						}
+					}
+					if !found {
+						shared = false
+					}
+				}
+				if shared {
+					if k == 0 {
+						if m.calls == nil {
+							m.calls = map[string][]CallRec{}
+						}
+						m.calls[name] = append(m.calls[name], rc)
+					}
+					continue
+				}
+				if rc.Cond == nil {
+					rc.Cond = conds[k]
+				} else {
+					rc.Cond = And(rc.Cond, conds[k])
+				}
+				if m.calls == nil {
+					m.calls = map[string][]CallRec{}
+				}
+				m.calls[name] = append(m.calls[name], rc)
+			}
+		}
+	}
+	fr.prev = first.fr.prev
+	return []mergedArrival{{fr, m, nphi}}
+}
+
+// structEqVal: structural equality of executor-level handles.
+func structEqVal(a, b Val) bool {
+	switch x := a.(type) {
+	case *PtrV:
+		y, ok := b.(*PtrV)
+		if !ok || x.Obj != y.Obj || len(x.Path) != len(y.Path) {
+			return false
+		}
+		for i := range x.Path {
+			if x.Path[i].Field != y.Path[i].Field || x.Path[i].Index != y.Path[i].Index {
+				return false
+			}
+		}
+		return true
+	case *StoreV:
+		y, ok := b.(*StoreV)
+		return ok && x.World == y.World && x.Prefix == y.Prefix
+	case *OpaqueV:
+		y, ok := b.(*OpaqueV)
+		return ok && x.What == y.What
+	case *IterV:
+		y, ok := b.(*IterV)
+		return ok && x.Obj == y.Obj
+	case *MapV:
+		y, ok := b.(*MapV)
+		return ok && x.Obj == y.Obj
+	case *ByteSlV:
+		y, ok := b.(*ByteSlV)
+		return ok && x.Obj == y.Obj
+	case *MapIterV:
+		y, ok := b.(*MapIterV)
+		return ok && x.Obj == y.Obj
+	case *IfaceV:
+		y, ok := b.(*IfaceV)
+		return ok && (x.V == y.V || structEqVal(x.V, y.V))
+	case *CtxV:
+		y, ok := b.(*CtxV)
+		return ok && x.World == y.World && x.Time == y.Time && x.Height == y.Height && x.Chain == y.Chain
+	case *FuncV:
+		y, ok := b.(*FuncV)
+		if !ok || x.Fn != y.Fn || x.Builtin != y.Builtin || len(x.Bindings) != len(y.Bindings) || len(x.Data) != len(y.Data) {
+			return false
+		}
+		for i := range x.Bindings {
+			if x.Bindings[i] != y.Bindings[i] && !structEqVal(x.Bindings[i], y.Bindings[i]) {
+				return false
+			}
+		}
+		for i := range x.Data {
+			if x.Data[i] != y.Data[i] && !structEqVal(x.Data[i], y.Data[i]) {
+				return false
+			}
+		}
+		return true
+	case *SliceV:
+		y, ok := b.(*SliceV)
+		return ok && x.Obj == y.Obj && x.Off == y.Off && x.Len == y.Len && x.IsNil() == y.IsNil()
+	case nil:
+		return b == nil
+	}
+	return false
+}
+
+func sameVals(a, b []Val) bool {
+	for i := range a {
+		if a[i] != b[i] {
+			return false
+		}
+	}
+	return true
 }
